@@ -71,6 +71,7 @@ def gen_knobs(rng, cfg, body_tricks=False, short_reads=False):
         'latency': wchoice(rng, [('none', 6), ('random', 2), ('slow_first', 1),
                                  ('slow_last', 1)]),
         'epoch': wchoice(rng, [(1000.0, 3), (0.0, 1), (1.7e9, 1)]),
+        'fs_buffer': wchoice(rng, [(8192, 3), (0, 1), (3, 1)]),
     }
     if body_tricks:
         k['pre_read'] = rng.random() < 0.3
